@@ -247,6 +247,53 @@ impl<'tcx> Cx<'tcx> {
         }
     }
 
+    /// A `&[&str]` constant stored at (alloc_id, off) as a fat pointer: follow the two levels of relocations and return the strings.
+    fn str_list(&self, alloc_id: mir::interpret::AllocId, off: u64) -> Option<Vec<String>> {
+        use mir::interpret::GlobalAlloc;
+        let GlobalAlloc::Memory(a) = self.tcx.try_get_global_alloc(alloc_id)? else { return None };
+        let a = a.inner();
+        if off + 16 > a.size().bytes() { return None; }
+        let b = a.inspect_with_uninit_and_ptr_outside_interpreter(off as usize..off as usize + 16);
+        let inner_off = u64::from_le_bytes(b[0..8].try_into().ok()?);
+        let len = u64::from_le_bytes(b[8..16].try_into().ok()?);
+        if len > 64 { return None; }
+        let prov = a.provenance().ptrs().get(&rustc_abi::Size::from_bytes(off))?;
+        let GlobalAlloc::Memory(arr) = self.tcx.try_get_global_alloc(prov.alloc_id())? else { return None };
+        let arr = arr.inner();
+        let mut out = vec![];
+        for i in 0..len {
+            let o = inner_off + i * 16;
+            if o + 16 > arr.size().bytes() { return None; }
+            let e = arr.inspect_with_uninit_and_ptr_outside_interpreter(o as usize..o as usize + 16);
+            let so = u64::from_le_bytes(e[0..8].try_into().ok()?);
+            let sl = u64::from_le_bytes(e[8..16].try_into().ok()?);
+            let sp = arr.provenance().ptrs().get(&rustc_abi::Size::from_bytes(o))?;
+            let bytes = self.read_bytes(sp.alloc_id(), so, sl)?;
+            out.push(String::from_utf8_lossy(&bytes).into_owned());
+        }
+        Some(out)
+    }
+
+    /// `n` consecutive `&str` fat pointers stored inline at (alloc_id, off).
+    fn str_array(&self, alloc_id: mir::interpret::AllocId, off: u64, n: u64) -> Option<Vec<String>> {
+        use mir::interpret::GlobalAlloc;
+        if n > 64 { return None; }
+        let GlobalAlloc::Memory(arr) = self.tcx.try_get_global_alloc(alloc_id)? else { return None };
+        let arr = arr.inner();
+        let mut out = vec![];
+        for i in 0..n {
+            let o = off + i * 16;
+            if o + 16 > arr.size().bytes() { return None; }
+            let e = arr.inspect_with_uninit_and_ptr_outside_interpreter(o as usize..o as usize + 16);
+            let so = u64::from_le_bytes(e[0..8].try_into().ok()?);
+            let sl = u64::from_le_bytes(e[8..16].try_into().ok()?);
+            let sp = arr.provenance().ptrs().get(&rustc_abi::Size::from_bytes(o))?;
+            let bytes = self.read_bytes(sp.alloc_id(), so, sl)?;
+            out.push(String::from_utf8_lossy(&bytes).into_owned());
+        }
+        Some(out)
+    }
+
     fn const_value(&mut self, cv: ConstValue, t: Ty<'tcx>, env: TypingEnv<'tcx>) -> J {
         let tcx = self.tcx;
         match cv {
@@ -304,6 +351,28 @@ impl<'tcx> Cx<'tcx> {
                 obj! {"slice_len" => i(meta), "elem_size" => i(elem_size)}
             }
             ConstValue::Indirect { alloc_id, offset } => {
+                if let ty::Array(e, n) = t.kind() {
+                    if let ty::Ref(_, ee, _) = e.kind() {
+                        if matches!(ee.kind(), ty::Str) {
+                            if let Some(n) = n.try_to_target_usize(tcx) {
+                                if let Some(v) = self.str_array(alloc_id, offset.bytes(), n) {
+                                    return obj! {"strs" => J::A(v.into_iter().map(s).collect()), "indirect" => J::B(true)};
+                                }
+                            }
+                        }
+                    }
+                }
+                if let ty::Ref(_, inner, _) = t.kind() {
+                    if let ty::Slice(e) = inner.kind() {
+                        if let ty::Ref(_, ee, _) = e.kind() {
+                            if matches!(ee.kind(), ty::Str) {
+                                if let Some(v) = self.str_list(alloc_id, offset.bytes()) {
+                                    return obj! {"strs" => J::A(v.into_iter().map(s).collect()), "indirect" => J::B(true)};
+                                }
+                            }
+                        }
+                    }
+                }
                 if let Ok(l) = tcx.layout_of(env.as_query_input(t)) {
                     if l.is_sized() {
                         if let Some(b) = self.read_bytes(alloc_id, offset.bytes(), l.size.bytes()) {
